@@ -28,10 +28,18 @@ type emit struct {
 	Bytes  int
 	// MetaKind: none | object | empty | number | string | array | null
 	MetaKind string
+	Seq      int
+	// Unenc != "": the notification cannot be JSON-encoded (the cause: nan, chan, …, see unenc.go); the sender must
+	// refuse it and nothing of it may reach the stream.  Params then holds only the encodable part.
+	Unenc string
 }
 
 // op is the emit in the shape the Lean driver reads.
 func (e emit) op() map[string]any {
+	if e.Unenc != "" {
+		// the model has no unencodable values: the attempt is just marked (the driver turns it into Attempt.refused)
+		return map[string]any{"k": e.K, "unencodable": true, "why": e.Unenc, "seq": e.Seq}
+	}
 	switch e.K {
 	case "progress":
 		return map[string]any{"k": "progress", "p": e.P, "msg": e.Msg}
@@ -198,7 +206,7 @@ func genMeta(r *rand.Rand, kind string) (any, bool) {
 
 // genEmit builds notification number seq of call nonce; size = bytes of free payload.
 func genEmit(r *rand.Rand, nonce string, seq, size int, pause bool) emit {
-	e := emit{Bytes: size, MetaKind: "none"}
+	e := emit{Bytes: size, MetaKind: "none", Seq: seq}
 	tag := fmt.Sprintf("%s|%d|", nonce, seq)
 	switch k := r.Intn(10); {
 	case k < 3:
@@ -248,6 +256,20 @@ type plan struct {
 	// slow-handler scenarios (slow.go): the handler also pauses before it returns; Scenario names the case in failing inputs
 	TailPause time.Duration
 	Scenario  string
+	// FpScen: makes the fingerprints of this call's oracles specific ("" = a plain generated burst), e.g. "unencodable:progress"
+	FpScen string
+	Tags   []string // more distribution tags
+}
+
+// wire: the emits that reach the stream (the sender refuses the unencodable ones before writing anything).
+func (p *plan) wire() []emit {
+	out := make([]emit, 0, len(p.Emits))
+	for _, e := range p.Emits {
+		if e.Unenc == "" {
+			out = append(out, e)
+		}
+	}
+	return out
 }
 
 var burstSizes = []int{0, 0, 1, 1, 1, 2, 2, 3, 5, 8, 10, 25, 50, 100, 200}
@@ -275,6 +297,17 @@ func genPlan(r *rand.Rand, nonce string, thorough bool, maxBurst int) *plan {
 		e := genEmit(r, nonce, i, size, pause)
 		p.Bytes += size
 		p.Emits = append(p.Emits, e)
+	}
+	if n > 0 && r.Intn(5) == 0 {
+		// a share of the bursts: some notifications (any position, also several in a row) cannot be encoded
+		for i := range p.Emits {
+			if r.Intn(3) == 0 {
+				p.Bytes -= p.Emits[i].Bytes
+				v := unencVariants[r.Intn(len(unencVariants))]
+				p.Emits[i] = genUnenc(r, nonce, i, v.K, v.Cause)
+			}
+		}
+		p.markUnenc()
 	}
 	p.Fail = r.Intn(6) == 0
 	p.Text = nonce + "|" + genString(r, []int{0, 1, 10, 100, 3000}[r.Intn(5)])
